@@ -36,6 +36,12 @@ impl Database {
         }
     }
 
+    /// verif hook H6: hand the event buffer's structure to the harness's audit
+    #[cfg(dnp3_verif)]
+    pub(crate) fn verif_audit(&self, site: &'static str) {
+        crate::verif::probe::audit_event_buffer(site, self.event_buffer.verif_facts());
+    }
+
     pub(crate) fn get_attr_map(&mut self) -> &mut SetMap {
         self.attrs.get_attr_map()
     }
